@@ -620,4 +620,29 @@ theorem splitOn_joinComma (xs : List Bytes) (hne : xs ≠ []) (h : ∀ x, x ∈ 
       simp only [joinComma]
       rw [splitOn_nosep 44 x _ (h x (List.mem_cons_self ..)), ih (by simp) (fun z hz => h z (List.mem_cons_of_mem _ hz))]
 
+/-! ### plugins per Generate call -/
+
+theorem pluginLoop_own {δ : Type} : ∀ (suf pre : List δ),
+    pluginLoop suf (pre ++ suf) pre.length = suf.map fun d => (d, some d) := by
+  intro suf
+  induction suf with
+  | nil => intro pre; rfl
+  | cons p ps ih =>
+    intro pre
+    have h := ih (pre ++ [p])
+    simp only [List.append_assoc, List.singleton_append, List.length_append, List.length_singleton] at h
+    simp [pluginLoop, h]
+
+theorem generateCalls_own {δ : Type} (descs : List δ) : ∀ (n : Nat) (st : List δ) (call : List (δ × Option δ)),
+    call ∈ generateCalls true descs n st → call = descs.map fun d => (d, some d) := by
+  intro n
+  induction n with
+  | zero => intro st call h; simp [generateCalls] at h
+  | succ n ih =>
+    intro st call h
+    simp only [generateCalls, preparePlugins, if_true, List.nil_append, List.mem_cons] at h
+    rcases h with h | h
+    · rw [h]; exact pluginLoop_own descs []
+    · exact ih _ call h
+
 end Plugin
